@@ -563,8 +563,9 @@ def groupByInit (names : List String) (groupBy merge : StrOrTuple) : Made :=
   else makeIncludeExcludeTree names groupBy.toList merge.toList
 
 /-- `self.groups`: an insertion-ordered dictionary from keys to lists of values.  The key is the
-selected sub-context itself: `to_string` (`json.dumps(sort_keys=True)`) is injective on contexts
-made of JSON scalars and dictionaries with string keys. -/
+selected sub-context itself, where the code uses its `to_string` (`json.dumps(sort_keys=True)`):
+`Props/C15Key.lean` (`group_key_to_string`) shows with C08's token model of `to_string` that the two keyings
+coincide; the driver renders the keys with that model and the harness compares them with the real strings. -/
 abbrev Groups := List (Slots × List Item)
 
 /-- `if key in self.groups: self.groups[key].append(val) else: self.groups[key] = [val]` -/
